@@ -2,6 +2,8 @@ package main
 
 import (
 	"fmt"
+	"go/constant"
+	"go/token"
 	"go/types"
 	"strings"
 
@@ -60,8 +62,31 @@ func caseEval(fi *FuncInfo, env map[string]int64, ri int) (ret *Sym, ok bool, wh
 		case *ssa.Jump:
 			b = blk.Succs[0].Index
 		case *ssa.If:
-			cs := fi.Sym(t.Cond)
-			neg := false
+			cond := t.Cond
+			preNeg := false
+			for {
+				if u, isU := cond.(*ssa.UnOp); isU && u.Op == token.NOT {
+					cond = u.X
+					preNeg = !preNeg
+					continue
+				}
+				if ph, isPh := cond.(*ssa.Phi); isPh && resolved[ph] != nil {
+					cond = resolved[ph]
+					continue
+				}
+				break
+			}
+			if k, isK := cond.(*ssa.Const); isK && k.Value != nil && k.Value.Kind() == constant.Bool {
+				r := constant.BoolVal(k.Value) != preNeg
+				if r {
+					b = blk.Succs[0].Index
+				} else {
+					b = blk.Succs[1].Index
+				}
+				continue
+			}
+			cs := fi.Sym(cond)
+			neg := preNeg
 			for cs.K == KNot {
 				cs = cs.Args[0]
 				neg = !neg
